@@ -27,6 +27,40 @@ def load_variants():
         sys.path.pop(0)
 
 
+def load_corpus(kinds=('seeded', 'benign')):
+    """the corpora written by independent agents: seeded/<id>/patch.diff must make the target property fire,
+    benign/<id>/patch.diff (behaviour-preserving refactorings) must leave every property silent"""
+    out = []
+    for kind in kinds:
+        base = os.path.join(VERIF, kind)
+        if not os.path.isdir(base):
+            continue
+        for name in sorted(os.listdir(base)):
+            p = os.path.join(base, name, 'patch.diff')
+            if not os.path.isfile(p):
+                continue
+            if kind == 'seeded':
+                meta = {}
+                mp = os.path.join(base, name, 'meta.json')
+                if os.path.isfile(mp):
+                    with open(mp) as fh:
+                        meta = json.load(fh)
+                if meta.get('expected') == 'missed':
+                    continue            # a recorded miss (DESIGN.md 11.2): not demanded, reported by tools/corpus.py
+                out.append(dict(id='seed:%s' % name, props=[name[:3]], expect='fire', rules=[name[:3]], patch=p, edits=[], deep=True))
+            else:
+                out.append(dict(id='benign:%s' % name, props=['C%02d' % i for i in range(1, 21)], expect='silent', rules=[], patch=p, edits=[],
+                                deep=False))
+    return out
+
+
+def apply_patch(root, path):
+    import subprocess
+    p = subprocess.run('patch -p1 --no-backup-if-mismatch -s < %s' % path, shell=True, cwd=root, stdout=subprocess.PIPE,
+                       stderr=subprocess.STDOUT, text=True)
+    return None if p.returncode == 0 else 'patch does not apply: %s' % p.stdout.strip()[-120:]
+
+
 def analyse(prop, repo_root, tier='quick'):
     mod = importlib.import_module('sa.props.%s' % prop)
     repo = Repo(repo_root)
@@ -77,7 +111,7 @@ def run_variant(args):
     import time as _t
     t0 = _t.time()
     try:
-        why = apply_edits(d, v['edits'])
+        why = apply_patch(d, v['patch']) if v.get('patch') else apply_edits(d, v['edits'])
         if why:
             res['status'] = 'skipped'
             res['why'] = why
@@ -131,8 +165,8 @@ def run(variants, repo_root, jobs=16, verbose=True):
 
 
 def run_for_property(prop, repo_root, jobs=16):
-    vs = [v for v in load_variants() if prop in v['props']]
-    vs = [dict(v, props=[prop]) if v['expect'] == 'fire' and not v.get('rules') else v for v in vs]
+    vs = [v for v in load_variants() + load_corpus() if prop in v['props']]
+    vs = [dict(v, props=[prop]) if (v['expect'] == 'fire' and not v.get('rules')) or v.get('patch') else v for v in vs]
     bad, results = run(vs, repo_root, jobs, verbose=False)
     n_ok = len([r for r in results if r['status'] == 'ok'])
     n_skip = len([r for r in results if r['status'] == 'skipped'])
@@ -142,8 +176,12 @@ def run_for_property(prop, repo_root, jobs=16):
 
 def main(a):
     vs = load_variants()
-    if a.rest:
-        vs = [v for v in vs if any(r in v['id'] or r in v['props'] for r in a.rest)]
+    rest = list(a.rest)
+    if 'corpus' in rest or a.prop == 'corpus':
+        rest = [r for r in rest if r != 'corpus']
+        vs = vs + load_corpus() if a.prop != 'corpus' else load_corpus()
+    if rest:
+        vs = [v for v in vs if any(r in v['id'] or r in v['props'] for r in rest)]
     bad, results = run(vs, a.repo, a.j)
     print('selftest: %d variants, %d ok, %d skipped, %d failed' % (
         len(results), len([r for r in results if r['status'] == 'ok']),
